@@ -45,7 +45,7 @@ endless filler x number of preceding valid elements x reader buffer size) for un
 + 2 buffers, the reader itself fails 16 MiB later; every case non-trivial. deltas: serial multisets (duplicates, gaps, \
 u64::MAX, unsorted, empty) x limits (None, 0, 1, n-1, n, n+1, large) and authority sets (case variants, ports, empty); \
 oracle = sort / keep newest limit / windows(2) b == a+1 with checked arithmetic, authorities equal ignoring ASCII case; \
-non-trivial = >=3 serials with a duplicate or gap.";
+non-trivial = >=3 serials with a duplicate or gap. roundtrip also re-spells every written file of up to 48 KiB (xmlrespell: attribute order, quote character, white space inside tags, <x/> versus <x></x>, comments and white space between elements, character references in attribute values): parsed to an equal value or refused.";
 
 //------------ small helpers ---------------------------------------------------
 
